@@ -39,17 +39,18 @@ Ltac fa := match goal with
   | H : Forall _ (?x :: ?l) |- _ => inversion H; subst; clear H
   end.
 
-Ltac mw := match goal with |- match ?w with _ => _ end => destruct w; try exact I; cbn in *; try exact I;
+Ltac mw := match goal with |- match ?w with _ => _ end => destruct w; try exact I; cbn in *; try exact I; try absurd_hyp; spec; try zl;
    try (match goal with |- match ?b with _ => _ end => destruct b; try exact I end);
    try (match goal with H : _ \/ _ |- _ => destruct H; [left; zl | right; assumption] end); try (left; zl); try (right; reflexivity) end.
 
 Ltac fin3 := dk; unfold L3; unf; cbn; gifs; cbn; repeat split; try assumption; intros;
   spec; conj; try assumption; try absurd_hyp; try exact I;
-  b2p; subst; cbn in *; rewrite ?orb_true_r in *; spec; conj; try exact I; try assumption; try absurd_hyp;
+  b2p; subst; cbn in *; rewrite ?orb_true_r in *; b2p; spec; conj; try exact I; try assumption; try absurd_hyp;
   try (repeat fa; zl); try zl; try (fa; assumption);
   try (apply Forall_tl; assumption); try (apply Forall_map_max);
   try (left; zl); try (right; reflexivity); try hcc; try mw;
-  try (match goal with H : ?b = true -> _ -> is_hcconn _ = true |- _ => is_var b; destruct b end; spec; conj; try hcc; try absurd_hyp; try assumption; try zl; try (left; zl); try (right; reflexivity); try mw).
+  try (match goal with H : ?b = true -> _ -> is_hcconn _ = true |- _ => is_var b; destruct b end; spec; conj; try hcc; try absurd_hyp; try assumption; try zl; try (left; zl); try (right; reflexivity); try mw;
+    try (match goal with H : _ \/ _ |- _ => destruct H; try absurd_hyp; try zl end)).
 
 Lemma L3_step_io p s r res s' l :
   L0 s -> L1 p s -> L2 s -> L3 p s -> step_io p s r res = Some (s', l) -> L3 p s'.
@@ -79,4 +80,68 @@ Proof.
   all: cbn in E; unf; cbn in E.
   all: split_ifs E; try discriminate; try inv_some.
   all: fin3.
+Qed.
+
+Lemma L3_step p s c s' l :
+  L0 s -> L1 p s -> L2 s -> L3 p s -> step p s c = Some (s', l) -> L3 p s'.
+Proof.
+  destruct c as [r res|r|b|a]; cbn [step].
+  - apply L3_step_io.
+  - apply L3_step_w.
+  - intros _ _ _ H E. ds s. unfold step_tail in E. cbn in E.
+    split_ifs E; try discriminate; inv_some; exact H.
+  - intros _ _ _ H E. ds s. destruct a; cbn in E; split_ifs E; try discriminate; inv_some; exact H.
+Qed.
+
+Definition Lall (p : params) (s : state) : Prop := L0 s /\ L1 p s /\ L2 s /\ L3 p s.
+
+Theorem Lall_step p s c s' l : Lall p s -> step p s c = Some (s', l) -> Lall p s'.
+Proof.
+  intros (A & B & C & D) E. split; [|split; [|split]].
+  - eapply L0_step; eauto.
+  - eapply L1_step; eauto.
+  - eapply L2_step; eauto.
+  - eapply L3_step; eauto.
+Qed.
+
+Theorem Lall_run p sched : 0 <= hw p -> Lall p (run p sched).
+Proof.
+  intros Hhw. unfold run. apply invariant_rule.
+  - split; [|split; [|split]]. apply L0_init. apply L1_init. apply L2_init. apply L3_init; assumption.
+  - intros; eapply Lall_step; eauto.
+Qed.
+
+(* ---- C12_bound ----------------------------------------------------------- *)
+
+Theorem bound_pending p sched : 0 <= hw p ->
+  pending (run p sched) <= hw p + last_write (run p sched).
+Proof. intros H. destruct (Lall_run p sched H) as (_ & _ & _ & L). apply L. Qed.
+
+(* the counter itself: equal to the bytes held whenever no subtraction / addition is in flight *)
+Theorem total_is_pending p sched : 0 <= hw p ->
+  let s := run p sched in
+  closed_bufs s = false -> sub_io (io s) = 0 -> sub_w (wk s) = 0 -> add_w (wk s) = 0 ->
+  total s = pending s.
+Proof.
+  intros H s C A B D. destruct (Lall_run p sched H) as (_ & _ & _ & L).
+  destruct L as (L1 & _). fold s in L1. specialize (L1 C). lia.
+Qed.
+
+(* ---- C12_order ------------------------------------------------------------- *)
+
+Theorem order_counts p sched : 0 <= hw p ->
+  let s := run p sched in
+  wire s + pending s <= appended s /\ (closed_bufs s = false -> wire s + pending s = appended s).
+Proof.
+  intros H s. destruct (Lall_run p sched H) as (_ & _ & _ & L). fold s in L.
+  destruct L as (_ & _ & _ & _ & _ & _ & _ & L8 & L9 & _). split; assumption.
+Qed.
+
+Theorem accounting p sched : 0 <= hw p ->
+  let s := run p sched in
+  closed_bufs s = false ->
+  pending s + sub_io (io s) + sub_w (wk s) = total s + add_w (wk s).
+Proof.
+  intros H s C. destruct (Lall_run p sched H) as (_ & _ & _ & L). fold s in L.
+  destruct L as (L1 & _). auto.
 Qed.
